@@ -425,7 +425,7 @@ func hasCaseInsensitiveBytePrefix(b []byte, prefix string) bool {
 }
 
 func caseInsensitiveContains(b []byte, search string) bool {
-	for i := 0; i < len(b)-len(search); i++ {
+	for i := 0; i <= len(b)-len(search); i++ {
 		if hasCaseInsensitiveBytePrefix(b[i:], search) {
 			return true
 		}
